@@ -85,6 +85,7 @@ func init() {
 		if c.Thorough() {
 			idle = 32
 		}
+		c05CBPart(c)
 		explore.Product(c.R, "halt-followers", explore.PartOpt{Bound: "idle lengths 0.." + itoa(idle) + " cycles", Domain: "every follower opcode x IME x 13 IE/IF combinations x 5 sources"},
 			func(yield func(c05Block) bool) {
 				for op := 0; op < 512; op++ {
